@@ -289,7 +289,14 @@ func genJSONCase(r *Rand, i int) jsonCase {
 						cj = append(cj, eExpr{F: 1, Inc: inc, V: pick(r, []TV{tvFloat("float32", 1<<30), tvSlice("[]float32", tvFloat("float32", 16777217), tvFloat("float32", 3)),
 							tvFloat("float32", 16777215), tvFloat("float32", 2.5), tvList(tvFloat("float32", 1<<24), tvInt("int", 7))})})
 					} else if r.Chance(8) { // nil / empty slices as expression values
-						cj = append(cj, eExpr{F: pick(r, []int{0, 1, 3}), Inc: inc, V: pick(r, []TV{{T: "[]string", Nil: true}, {T: "[]int", Nil: true}, {T: "[]interface{}", Nil: true}, tvSlice("[]string"), tvSlice("[]int")})})
+						// (a value the ORIGINAL builder refuses for its Go type, e.g. []int{} on the pattern field, is not a document
+						// of the property: only string-typed and untyped lists go to field 3)
+						f := pick(r, []int{0, 1, 3})
+						vs := []TV{{T: "[]string", Nil: true}, {T: "[]interface{}", Nil: true}, tvSlice("[]string")}
+						if f != 3 {
+							vs = append(vs, TV{T: "[]int", Nil: true}, tvSlice("[]int"))
+						}
+						cj = append(cj, eExpr{F: f, Inc: inc, V: pick(r, vs)})
 					} else if r.Bool() {
 						cj = append(cj, eExpr{F: 1, Inc: inc, V: tvSlice("[]string", tvStr(pick(r, words)))})
 					} else {
